@@ -50,6 +50,21 @@ def run(rep, tier, seed):
             rep.violation("registry", bad, {"case": streams.ser(r["prog"]), "failure": r["meta"]["problems"][:5]})
         rep.sample({"kb": streams.ser(r["prog"]["kb"]), "root_groups": r["prog"]["root_groups"]}, limit=2)
     rep.obligation("correspondence:registry", ndis == 0, f"{len(recs)} KBs, {ncmp} lines compared, {ndis} disagree")
+    # ---- training reaches the parameters every registered object owns NOW (twins with trainable bounds, two train() calls with
+    # data in between; implementation only)
+    from fractions import Fraction as Fr
+    tcases = [{"first": (Fr(1, 4), Fr(3, 4)), "again": (Fr(3, 8), Fr(5, 8)), "which": k % 2, "lr": Fr(1, 8) if k < 2 else Fr(1, 16)}
+              for k in range(4)]
+    for c, r in zip(tcases, engine.run_cases("prop", "run_c08_train", tcases, chunksize=1)):
+        if "crash" in r or r["meta"]["errors"]:
+            rep.bump("train_twice_errors")
+            rep.extra.setdefault("first_train_twice_error", r.get("crash") or r["meta"]["errors"][0])
+            continue
+        rep.bump("train_twice_runs")
+        if not r["meta"]["registered_once"]:
+            rep.violation("registry", {"problem": "an object is registered twice"}, {"case": streams.ser(c)})
+        if r["meta"]["bad"]:
+            rep.violation("train-reaches-objects", r["meta"]["bad"], {"case": streams.ser(c), "failure": r["meta"]["bad"]})
     rep.cov["rule"] = ("propositional KBs that deliberately contain 1-4 pairs of structurally equal DISTINCT objects (a copy used by another parent, "
                        "Or(f, Not(copy of f)), a copy as its own root, a user-written implication equal to the one an Iff generates), roots added "
                        "in one or several add_knowledge calls and sometimes twice, data attached to any subset of the objects before or after "
